@@ -360,6 +360,31 @@ func (e *Enc) get(fr *Frame, v ssa.Value) Val {
 		}
 	}
 	if fr.lazy {
+		// a function literal created outside the encoded region: the same code, bound to the
+		// (lazily introduced) cells it captures
+		if mc, ok := v.(*ssa.MakeClosure); ok {
+			if fn, isFn := mc.Fn.(*ssa.Function); isFn {
+				var bind []Val
+				for _, bv := range mc.Bindings {
+					bind = append(bind, e.get(fr, bv))
+				}
+				// distinct captured cells are distinct objects
+				for i := range bind {
+					for j := i + 1; j < len(bind); j++ {
+						if mc.Bindings[i] != mc.Bindings[j] && len(bind[i].L) > 0 && len(bind[j].L) > 0 && bind[i].P == nil && bind[j].P == nil {
+							if _, ok1 := mc.Bindings[i].(*ssa.Alloc); ok1 {
+								if _, ok2 := mc.Bindings[j].(*ssa.Alloc); ok2 && bind[i].L[0].S == bind[j].L[0].S {
+									e.assert(Not(Eq(bind[i].L[0], bind[j].L[0])))
+								}
+							}
+						}
+					}
+				}
+				x := Val{Typ: mc.Type(), L: []T{IntLit64(IntS, 1)}, Fn: fn, Bind: bind}
+				fr.vals[v] = x
+				return x
+			}
+		}
 		// value defined outside the encoded region: pure instructions are recomputed from their
 		// (lazily introduced) operands so that e.g. `n := len(xs)` stays tied to xs
 		pure := false
